@@ -210,18 +210,231 @@ func TestVerifC16Proxy(t *testing.T) {
 	if h == nil {
 		t.Skip("VERIF_OUT not set")
 	}
-	n := h.N(600, 5000)
+	n := h.N(645, 5800) // 1/15 (thorough 2/15) of the cases are multi-framework cases; the single-framework stream keeps >= 600 / 5000 cases
 	for idx := 0; idx < n; idx++ {
 		r := h.Begin(idx)
 		if r == nil {
 			continue
 		}
-		c16ProxyCase(h, r, idx%15 == 0 || (h.Tier == "thorough" && idx%15 == 7))
+		if idx%15 == 3 || (h.Tier == "thorough" && idx%15 == 11) {
+			c16ProxyMultiCase(h, r)
+		} else {
+			c16ProxyCase(h, r, idx%15 == 0 || (h.Tier == "thorough" && idx%15 == 7))
+		}
 		h.End()
 	}
 	h.Close("one case = one history of 3-14 evictions through handle.Evictor() (shared proxy or a fresh one per call) over 4 node names x 3 namespaces, " +
 		"limiter caps (node/namespace/total) in {nil,0,1,2,3} or no limiter at all, dry-run 1/6, plugin failures 1/5; every 15th case adds N=2..16 " +
-		"goroutines held inside the plugin call. Non-trivial = at least one refusal and one granted eviction")
+		"goroutines held inside the plugin call; every 15th case (another residue) builds 2-4 frameworks (profiles) over ONE limiter the way " +
+		"descheduler.New / profile.NewMap do, evicts sequentially through proxies of random frameworks and 1-2 times from 2-8 goroutines spread " +
+		"over at least two frameworks, half of them with a cap below the number of frameworks involved. Non-trivial = at least one refusal and one granted eviction")
+}
+
+// ---- several profiles: descheduler.New hands ONE option list (one WithEvictionLimiter) to profile.NewMap, which calls
+// NewFramework once per profile with it.  (package profile imports this package, so its loop is repeated here;
+// facts: profileFrameworkPerProfile / profilesShareLimiter.)
+func c16ProxyMultiCase(h *vHarness, r *vRand) {
+	nfw := r.Range(2, 4)
+	capNode, capNs, capTotal := c16Cap(r), c16Cap(r), c16Cap(r)
+	tight := r.Bool()
+	if tight {
+		// exactly one small cap, below the number of frameworks
+		c := r.Range(1, nfw-1)
+		capNode, capNs, capTotal = -1, -1, -1
+		switch r.Intn(3) {
+		case 0:
+			capNode = c
+		case 1:
+			capNs = c
+		default:
+			capTotal = c
+		}
+	} else if r.Bool() {
+		capTotal = r.Range(2, 6)
+	}
+	el := evictions.NewEvictionLimiter(c16Ptr(capNode), c16Ptr(capNs), c16Ptr(capTotal))
+	plug := &c16Plugin{script: map[string]bool{}, timeout: 30 * time.Millisecond}
+	reg := Registry{}
+	_ = reg.Register(plug.Name(), func(ctx context.Context, args k8sruntime.Object, handle framework.Handle) (framework.Plugin, error) {
+		return plug, nil
+	})
+	opts := []Option{WithDryRun(false), WithEvictionLimiter(el)}
+	fhs := make([]framework.Handle, nfw)
+	shared := make([]framework.Evictor, nfw)
+	for k := range fhs {
+		profile := deschedulerconfig.DeschedulerProfile{Name: fmt.Sprintf("c16-%d", k), Plugins: &deschedulerconfig.Plugins{
+			Evict: deschedulerconfig.PluginSet{Enabled: []deschedulerconfig.Plugin{{Name: plug.Name()}}}}}
+		fh, err := NewFramework(context.TODO(), reg, &profile, opts...)
+		if err != nil {
+			panic(err)
+		}
+		fhs[k] = fh
+		shared[k] = fh.Evictor()
+	}
+	h.Op("px 0 1 %d %d %d", capNode, capNs, capTotal)
+	h.Op("pxm %d", nfw)
+	h.Tag(fmt.Sprintf("pxm:frameworks=%d,tight=%d", nfw, vB(tight)))
+	tl := c16NewTally()
+	seq, refusals, grants := 0, 0, 0
+	steps := r.Range(2, 8)
+	conc := map[int]bool{r.Intn(steps): true}
+	if tight || r.Bool() {
+		conc[0] = true
+	}
+	for s := 0; s < steps; s++ {
+		if conc[s] {
+			nf := len(h.fails)
+			c16ConcMulti(h, r, fhs, shared, el, plug, tl, &seq, capNode, capNs, capTotal, &refusals, &grants)
+			if len(h.fails) > nf {
+				return
+			}
+			continue
+		}
+		node, ns := r.Intn(c16Nodes+1), r.Intn(c16Nss)
+		if r.Chance(1, 2) {
+			node, ns = 1, 0
+		}
+		fail := r.Chance(1, 5)
+		fresh := r.Bool()
+		k := r.Intn(nfw)
+		seq++
+		pod := c16Pod(seq, node, ns)
+		plug.script[pod.Name] = fail
+		ev := shared[k]
+		if fresh {
+			ev = fhs[k].Evictor()
+		}
+		before, okBefore := plug.allCalls, plug.okCalls
+		bt, bn, bs := c16Reported(shared[0], el)
+		var ok bool
+		h.Op("pev %d %d %d %d %d", node, ns, vB(!fail), vB(fresh), k)
+		if h.Guard(func() { ok = ev.Evict(context.TODO(), pod, framework.EvictOptions{Reason: "verif"}) }) {
+			h.Obs("panic")
+			h.Fail("C16:panic", "evictorProxy.Evict panicked")
+			return
+		}
+		called := plug.allCalls - before
+		granted := plug.okCalls - okBefore
+		if granted > 0 {
+			tl.add(node, ns)
+			grants++
+		}
+		at, an, as := c16Reported(shared[(k+1)%nfw], el) // the counters as another profile's proxy reports them
+		h.Obs("ev %d %d %s", vB(ok), vB(called > 0), c16Ctr(at, an, as))
+		h.Tag(fmt.Sprintf("evm:ok=%d,called=%d", vB(ok), called))
+		if !ok && called == 0 {
+			refusals++
+			if at != bt || !c16SameMap(an, bn) || !c16SameMap(as, bs) {
+				h.Fail("C16:proxy-refused-side-effect", "refused eviction changed the counters")
+			}
+		}
+		if called > 1 {
+			h.Fail("C16:proxy-double-call", "%d plugin calls for one eviction", called)
+		}
+		if ok != (granted > 0) {
+			h.Fail("C16:proxy-result-wrong", "Evict returned %v but the plugin granted %d", ok, granted)
+		}
+		// sequential use of several profiles: the caps are caps of the cycle, whichever profile evicts
+		c16CheckCapsFp(h, "C16:proxy-cap-exceeded-sequential-profiles", tl, capNode, capNs, capTotal)
+		c16CheckCounters(h, "proxy", tl, at, an, as)
+	}
+	if refusals > 0 && grants > 0 {
+		h.Nontrivial()
+	}
+}
+
+// n goroutines evict at the same time through proxies of at least two DIFFERENT frameworks that share the limiter; the
+// evict plugin (one object for all frameworks) holds a caller until as many callers as there are frameworks involved are
+// inside it, or 30 ms have passed.  With one lock for all frameworks only one caller is ever inside.
+func c16ConcMulti(h *vHarness, r *vRand, fhs []framework.Handle, shared []framework.Evictor, el *evictions.EvictionLimiter, plug *c16Plugin,
+	tl *c16Tally, seq *int, capNode, capNs, capTotal int, refusals, grants *int) {
+	nfw := len(fhs)
+	n := r.Range(2, 8)
+	fresh := r.Bool()
+	type req struct{ fw, node, ns int }
+	reqs := make([]req, n)
+	capsSet := 0
+	for _, c := range []int{capNode, capNs, capTotal} {
+		if c >= 0 {
+			capsSet++
+		}
+	}
+	identical := capsSet >= 2 || r.Bool()
+	fixedNode, fixedNs := r.Range(1, c16Nodes), r.Intn(c16Nss)
+	if r.Bool() {
+		fixedNode, fixedNs = 1, 0 // where the sequential steps put most of their evictions
+	}
+	perm := r.Perm(nfw)
+	used := map[int]bool{}
+	for i := range reqs {
+		k := perm[i%nfw] // the first two callers are on different frameworks
+		if i >= 2 && r.Bool() {
+			k = r.Intn(nfw)
+		}
+		used[k] = true
+		reqs[i] = req{k, fixedNode, fixedNs}
+		if !identical {
+			// vary only the capped dimension, so that the counters do not depend on who is admitted
+			if capNs < 0 && capTotal < 0 {
+				reqs[i].node = r.Range(1, 2)
+			}
+			if capNode < 0 && capTotal < 0 {
+				reqs[i].ns = r.Intn(2)
+			}
+		}
+	}
+	op := fmt.Sprintf("pconcm %d %d", vB(fresh), n)
+	pods := make([]*corev1.Pod, n)
+	for i, q := range reqs {
+		op += fmt.Sprintf(" %d %d %d", q.fw, q.node, q.ns)
+		*seq++
+		pods[i] = c16Pod(*seq, q.node, q.ns)
+	}
+	h.Op("%s", op)
+	h.Tag(fmt.Sprintf("pconcm:fresh=%d,frameworks=%d", vB(fresh), len(used)))
+	before, okBefore := plug.allCalls, plug.okCalls
+	plug.arm(len(used))
+	var wg sync.WaitGroup
+	start := make(chan struct{})
+	oks := make([]bool, n)
+	for i := range pods {
+		wg.Add(1)
+		go func(i int) {
+			defer wg.Done()
+			<-start
+			ev := shared[reqs[i].fw]
+			if fresh {
+				ev = fhs[reqs[i].fw].Evictor()
+			}
+			oks[i] = ev.Evict(context.TODO(), pods[i], framework.EvictOptions{Reason: "verif"})
+		}(i)
+	}
+	close(start)
+	wg.Wait()
+	plug.disarm()
+	succ := 0
+	for i, ok := range oks {
+		if ok {
+			succ++
+			tl.add(reqs[i].node, reqs[i].ns)
+		}
+	}
+	if succ > 0 {
+		*grants++
+	}
+	if succ < n {
+		*refusals++
+	}
+	calls := plug.allCalls - before
+	granted := plug.okCalls - okBefore
+	at, an, as := c16Reported(shared[0], el)
+	h.Obs("conc %d %d %s", succ, calls, c16Ctr(at, an, as))
+	h.Tag("pconcm:admitted=" + []string{"none", "some", "all"}[vB(succ > 0)+vB(succ == n)])
+	if granted != succ {
+		h.Fail("C16:proxy-result-wrong", "%d callers succeeded, plugin granted %d", succ, granted)
+	}
+	c16CheckCapsFp(h, "C16:proxy-cap-exceeded-across-frameworks", tl, capNode, capNs, capTotal)
+	c16CheckCounters(h, "proxy", tl, at, an, as)
 }
 
 func c16ProxyCase(h *vHarness, r *vRand, withConc bool) {
